@@ -35,7 +35,7 @@ ASSUMPTIONS = ['row ids are int or None (DESIGN 2.7)',
                'for ReplaceTableData automatic ids are only required to be positive, distinct and not to collide with '
                'explicit ids of the request (no row exists any more once the table is replaced)']
 BUDGET = {'quick': dict(examples=4000, shards=12, max_seconds=32),
-          'thorough': dict(examples=80000, shards=16, max_seconds=420)}
+          'thorough': dict(examples=45000, shards=16, max_seconds=1800)}
 SHRINK_BUDGET = {'quick': 120, 'thorough': 400}
 
 TABLE = 'Tab1'
